@@ -299,6 +299,18 @@ def threadCommands : List (String × String × String) := [
   ("cmd/edgetrees.go", "compute edgetrees", "edgetrees-stdout-t8"),
   ("cmd/roccurve.go", "compute roccurve", "roccurve")]
 
+/-! ### the seeding hook reaches every command (cobra runs only the NEAREST persistent pre-run hook) -/
+
+/-- last word of a command path -/
+def lastWord (p : String) : String := String.ofList (p.toList.reverse.takeWhile (· != ' ')).reverse
+
+/-- runnable commands of the live command tree whose nearest persistent pre-run hook is not the root's
+    (`Gen.C18Sites.preRunHidden`) and whose hook does not call `RootCmd.PersistentPreRun` itself
+    (`Gen.C18Sites.preRunHooks`, read from the source): for them `rand.Seed(seed)` is never executed — must be empty -/
+def commandsNotSeeded : List (String × String) :=
+  Gen.C18Sites.preRunHidden.filter (fun r =>
+    !(Gen.C18Sites.preRunHooks.any (fun h => h.2.1 == lastWord r.2 && h.2.2)))
+
 def staleProofs : List String :=
   provedSiteKeys.filter (fun k => !((coreSites.map (·.key)).contains k)) ++
   (reviewedExcludedSites.map (·.1)).filter (fun k => !((excludedSites.map (·.key)).contains k))
